@@ -18,18 +18,23 @@ Qed.
 Definition within (L : N) (lens : list N) : Prop := lens = [] \/ product lens <= L.
 
 
-Lemma eff_eq f : eff f = carry f * product (loops f).
-Proof. unfold eff, loop_product. apply fold_left_mul. Qed.
+Definition effl (cy : N) (lps : list N) : N := loop_product lps cy.
 
-Lemma loop_product_eff f n : loop_product f (n * carry f) = n * eff f.
-Proof. unfold loop_product. rewrite fold_left_mul, eff_eq. lia. Qed.
+Lemma effl_eq cy lps : effl cy lps = cy * product lps.
+Proof. unfold effl, loop_product. apply fold_left_mul. Qed.
+
+Lemma eff_effl s : eff s = effl (carry (cur s)) (cur_loops s).
+Proof. reflexivity. Qed.
+
+Lemma loop_product_eff lps cy n : loop_product lps (n * cy) = n * effl cy lps.
+Proof. unfold loop_product. rewrite fold_left_mul, effl_eq. lia. Qed.
 
 (** [raise_for_loop_limit] raises exactly when (length x product of the active
     loops x carry) exceeds an active limit. *)
-Lemma raise_for_loop_limit_spec c f n :
-  raise_for_loop_limit c f n =
+Lemma raise_for_loop_limit_spec c s n :
+  raise_for_loop_limit c (cur s) (cur_loops s) n =
     match active (loop_limit c) with
-    | Some l => if l <? n * eff f then LErr LoopIterationLimitError None else Ok tt
+    | Some l => if l <? n * eff s then LErr LoopIterationLimitError None else Ok tt
     | None => Ok tt
     end.
 Proof. unfold raise_for_loop_limit. rewrite loop_product_eff. reflexivity. Qed.
@@ -59,115 +64,131 @@ Proof.
     rewrite spec_open_cons. eapply IH; eauto.
 Qed.
 
-(** Setters commute / cancel. *)
-Lemma set_scope_loops_undo f n :
-  set_scope (set_loops (set_scope (set_loops f (n :: loops f)) (scope f + 1))
-               (tl (loops (set_scope (set_loops f (n :: loops f)) (scope f + 1)))))
-    (N.pred (scope (set_scope (set_loops f (n :: loops f)) (scope f + 1)))) = f.
-Proof. destruct f; unfold set_scope, set_loops; simpl. f_equal. lia. Qed.
-
 Lemma set_scope_undo f : set_scope (set_scope f (scope f + 1)) (N.pred (scope (set_scope f (scope f + 1)))) = f.
 Proof. destruct f; unfold set_scope; simpl. f_equal. lia. Qed.
-
-Lemma set_carry_undo f n : set_carry (set_carry f n) (carry f) = f.
-Proof. destruct f; reflexivity. Qed.
 
 (** * The loop limit covers every nest of loops *)
 
 (** The model state agrees with the bracket structure read off the operation
     sequence; in particular (current loops x carry) is the product of ALL
-    enclosing loops, and this is again so after leaving any number of brackets. *)
-Fixpoint linv (f : frame) (ps : list frame) (o : list bracket) (stk : list sbracket)
-  {struct o} : Prop :=
-  eff f = product (loop_lengths stk) /\
+    enclosing loops, and this is again so after leaving any number of brackets.
+    Only the carries, the sharing flags and the loop lists matter. *)
+Fixpoint linv (f : frame) (ps : list frame) (gs : list (list N)) (o : list bracket)
+  (stk : list sbracket) {struct o} : Prop :=
+  effl (carry f) (hd [] gs) = product (loop_lengths stk) /\
   match o, stk with
   | [], [] => True
   | BFor :: o', SLoop n :: stk' =>
-      (exists l', loops f = n :: l') /\ linv (set_loops f (tl (loops f))) ps o' stk'
+      (exists l', hd [] gs = n :: l') /\ linv f ps (set_cur_loops gs (tl (hd [] gs))) o' stk'
   | BCarry sv :: o', SLoop n :: stk' =>
-      carry f = sv * n /\ linv (set_carry f sv) ps o' stk'
-  | BExt :: o', SOther :: stk' => linv f ps o' stk'
+      carry f = sv * n /\ linv (set_carry f sv) ps gs o' stk'
+  | BExt :: o', SOther :: stk' => linv f ps gs o' stk'
   | BCopy :: o', SCopy :: stk' =>
-      match ps with p :: ps' => linv p ps' o' stk' | [] => False end
+      match ps with
+      | p :: ps' => linv p ps' (if shared f then gs else tl gs) o' stk'
+      | [] => False
+      end
   | _, _ => False
   end.
 
-Lemma linv_ext : forall o f f' ps stk,
-  carry f = carry f' -> loops f = loops f' -> linv f ps o stk -> linv f' ps o stk.
+Lemma linv_ext : forall o f f' ps gs stk,
+  carry f = carry f' -> shared f = shared f' -> linv f ps gs o stk -> linv f' ps gs o stk.
 Proof.
-  induction o as [|b o IH]; intros f f' ps stk Hc Hl; cbn [linv]; intros [He H];
-    (split; [rewrite eff_eq in *; rewrite <- Hc, <- Hl; exact He|]).
+  induction o as [|b o IH]; intros f f' ps gs stk Hc Hs; cbn [linv]; intros [He H];
+    (split; [rewrite <- Hc; exact He|]).
   - exact H.
   - destruct b, stk as [|[n| |] stk']; try contradiction.
-    + destruct H as [Hx H]. split; [rewrite <- Hl; exact Hx|].
-      eapply IH; [| |exact H]; destruct f, f'; simpl in *; congruence.
+    + destruct H as [Hx H]. split; [exact Hx|]. eapply IH; eauto.
     + destruct H as [Hx H]. split; [rewrite <- Hc; exact Hx|].
       eapply IH; [| |exact H]; destruct f, f'; simpl in *; congruence.
     + eapply IH; eauto.
-    + exact H.
+    + rewrite <- Hs. exact H.
 Qed.
 
+(** A missing list reads as an empty one. *)
+Lemma linv_nil : forall o f ps stk, linv f ps [] o stk -> linv f ps [[]] o stk.
+Proof.
+  induction o as [|b o IH]; intros f ps stk; cbn [linv hd]; intros [He H]; (split; [exact He|]).
+  - exact H.
+  - destruct b, stk as [|[m| |] stk']; try contradiction.
+    + destruct H as [[l' Hx] _]. discriminate.
+    + destruct H as [Hx H]. split; [exact Hx|]. apply IH. exact H.
+    + apply IH. exact H.
+    + destruct ps as [|p ps']; [contradiction|]. destruct (shared f).
+      * apply IH. exact H.
+      * cbn [tl] in *. exact H.
+Qed.
+
+Lemma linv_norm o f ps gs stk : linv f ps gs o stk -> linv f ps (hd [] gs :: tl gs) o stk.
+Proof. destruct gs as [|g gs']; [apply linv_nil|exact (fun H => H)]. Qed.
+
 Definition sinv (s : state) (stk : list sbracket) : Prop :=
-  linv (cur s) (parents s) (opened s) stk.
+  linv (cur s) (parents s) (groups s) (opened s) stk.
 
 Lemma product_loops_cons n l : product (n :: l) = n * product l.
 Proof. reflexivity. Qed.
 
+Lemma sinv_eff s stk : sinv s stk -> eff s = product (loop_lengths stk).
+Proof. unfold sinv. rewrite eff_effl. unfold cur_loops. destruct (opened s); intros H; apply H. Qed.
+
 Lemma sinv_step c s stk o s' :
   sinv s stk -> counted o -> step c s o = (Ok tt, s') -> sinv s' (spec_open [o] stk).
 Proof.
-  unfold sinv. destruct s as [f ps op]. cbn [cur parents opened].
-  intros Hi Hg. destruct o; cbn [step cur parents opened spec_open].
+  intros Hi Hg. pose proof (sinv_eff _ _ Hi) as He. rewrite eff_effl in He.
+  unfold sinv in *. destruct s as [f ps gs op]. unfold cur_loops in *.
+  cbn [cur parents groups opened] in *.
+  destruct o; cbn [step cur parents groups opened spec_open]; unfold cur_loops;
+    cbn [cur parents groups opened].
   - (* EnterFor *)
-    destruct (raise_for_loop_limit c f n) as [[]| | |]; try (intros E; discriminate).
+    destruct (raise_for_loop_limit c f (hd [] gs) n) as [[]| | |]; try (intros E; discriminate).
     destruct (extend_check c f) as [[]| | |]; try (intros E; discriminate).
-    intros E; inversion E; subst. cbn [push cur parents opened linv loop_lengths].
-    assert (He : eff f = product (loop_lengths stk)) by (destruct op; apply Hi).
+    intros E; inversion E; subst. cbn [cur parents groups opened linv loop_lengths].
+    unfold set_cur_loops at 1 2. cbn [hd tl].
     split.
-    + rewrite eff_eq. rewrite eff_eq in He. cbn [carry loops set_scope set_loops].
-      rewrite !product_loops_cons. rewrite <- He. lia.
-    + split; [simpl; eauto|]. eapply linv_ext; [| |exact Hi]; reflexivity.
+    + rewrite effl_eq in *. cbn [carry set_scope]. rewrite !product_loops_cons, <- He. lia.
+    + split; [eauto|]. eapply linv_ext with (f := f); [reflexivity|reflexivity|].
+      change (set_cur_loops (set_cur_loops gs (n :: hd [] gs))
+                (tl (hd [] (set_cur_loops gs (n :: hd [] gs)))))
+        with (hd [] gs :: tl gs).
+      apply linv_norm. exact Hi.
   - (* EnterCarry *)
-    destruct (raise_for_loop_limit c f n) as [[]| | |]; try (intros E; discriminate).
-    intros E; inversion E; subst. cbn [push cur parents opened linv loop_lengths].
-    assert (He : eff f = product (loop_lengths stk)) by (destruct op; apply Hi).
+    destruct (raise_for_loop_limit c f (hd [] gs) n) as [[]| | |]; try (intros E; discriminate).
+    intros E; inversion E; subst. cbn [push cur parents groups opened linv loop_lengths].
     split.
-    + rewrite eff_eq. rewrite eff_eq in He. cbn [carry loops set_carry].
-      rewrite !product_loops_cons. rewrite <- He. lia.
+    + rewrite effl_eq in *. cbn [carry set_carry]. rewrite !product_loops_cons, <- He. lia.
     + split; [reflexivity|]. eapply linv_ext; [| |exact Hi]; reflexivity.
   - (* Extend *)
     destruct (extend_check c f) as [[]| | |]; try (intros E; discriminate).
-    intros E; inversion E; subst. cbn [push cur parents opened linv loop_lengths].
-    assert (He : eff f = product (loop_lengths stk)) by (destruct op; apply Hi).
-    split; [rewrite eff_eq; rewrite eff_eq in He; exact He|].
-    eapply linv_ext; [| |exact Hi]; reflexivity.
+    intros E; inversion E; subst. cbn [push cur parents groups opened linv loop_lengths].
+    split; [exact He|]. eapply linv_ext; [| |exact Hi]; reflexivity.
   - (* EnterCopy *)
-    destruct carry_loops; [|contradiction].
     destruct (copy_check c f) as [[]| | |]; try (intros E; discriminate).
-    intros E; inversion E; subst. cbn [cur parents opened linv loop_lengths].
-    assert (He : eff f = product (loop_lengths stk)) by (destruct op; apply Hi).
-    split; [|exact Hi].
-    rewrite eff_eq. cbn [carry loops copy_frame]. change (loop_product f (carry f)) with (eff f).
-    rewrite He. unfold product. simpl. lia.
+    intros E; inversion E; subst. cbn [cur parents groups opened linv loop_lengths].
+    destruct block_scope.
+    + split; [cbn [carry copy_frame]; exact He|]. cbn [shared copy_frame]. exact Hi.
+    + destruct carry_loops; [|contradiction].
+      split; [|cbn [shared copy_frame tl]; exact Hi].
+      cbn [carry copy_frame hd]. rewrite effl_eq. fold (effl (carry f) (hd [] gs)).
+      rewrite He. unfold product. simpl. lia.
   - (* Exit *)
-    unfold exit_bracket. cbn [cur parents opened].
+    unfold exit_bracket, cur_loops. cbn [cur parents groups opened].
     destruct op as [|b op]; [intros E; discriminate|].
-    cbn [linv] in Hi. destruct Hi as [He Hi].
+    cbn [linv] in Hi. destruct Hi as [_ Hi].
     destruct b, stk as [|[n| |] stk']; try contradiction.
-    + intros E; inversion E; subst. cbn [cur parents opened tl].
+    + intros E; inversion E; subst. cbn [cur parents groups opened tl].
       destruct Hi as [_ Hi]. eapply linv_ext; [| |exact Hi]; reflexivity.
-    + intros E; inversion E; subst. cbn [cur parents opened tl].
+    + intros E; inversion E; subst. cbn [cur parents groups opened tl].
       destruct Hi as [_ Hi]. exact Hi.
-    + intros E; inversion E; subst. cbn [cur parents opened tl].
+    + intros E; inversion E; subst. cbn [cur parents groups opened tl].
       eapply linv_ext; [| |exact Hi]; reflexivity.
     + destruct ps as [|p ps']; [contradiction|].
-      intros E; inversion E; subst. cbn [cur parents opened tl]. exact Hi.
+      intros E; inversion E; subst. cbn [cur parents groups opened tl]. exact Hi.
   - (* Assign *)
     destruct (active (ns_limit c)) as [l|].
     + destruct (l <? _); intros E; inversion E; subst.
-      cbn [with_cur cur parents opened]. eapply linv_ext; [| |exact Hi]; reflexivity.
+      cbn [with_cur cur parents groups opened]. eapply linv_ext; [| |exact Hi]; reflexivity.
     + intros E; inversion E; subst.
-      cbn [with_cur cur parents opened]. eapply linv_ext; [| |exact Hi]; reflexivity.
+      cbn [with_cur cur parents groups opened]. eapply linv_ext; [| |exact Hi]; reflexivity.
   - (* CheckLoop *)
     intros E; inversion E; subst. exact Hi.
   - contradiction.
@@ -176,14 +197,11 @@ Qed.
 Lemma sinv_init : sinv init [].
 Proof. unfold sinv, init. simpl. split; [reflexivity|exact I]. Qed.
 
-Lemma sinv_eff s stk : sinv s stk -> eff (cur s) = product (loop_lengths stk).
-Proof. unfold sinv. destruct (opened s); intros H; apply H. Qed.
-
 (** (current loops x carry) = product of all enclosing loops, in every state a
     render can reach. *)
 Theorem eff_is_nest_product : forall c ops s,
   Forall counted ops -> render c init ops = Ok s ->
-  eff (cur s) = nest_product ops.
+  eff s = nest_product ops.
 Proof.
   intros c ops s Hg E. unfold nest_product. apply sinv_eff.
   exact (render_invariant c counted sinv (sinv_step c) ops init [] s sinv_init Hg E).
@@ -211,11 +229,11 @@ Proof.
     cbn [spec_open all_bounded loop_lengths]; try (split; assumption); try assumption.
   - (* EnterFor *)
     split; [|exact Hb]. cbn [step] in E. rewrite raise_for_loop_limit_spec, HL in E.
-    destruct (N.ltb_spec L (n * eff (cur s))) as [Hlt|Hge]; [discriminate|].
+    destruct (N.ltb_spec L (n * eff s)) as [Hlt|Hge]; [discriminate|].
     right. rewrite product_loops_cons, <- He. exact Hge.
   - (* EnterCarry *)
     split; [|exact Hb]. cbn [step] in E. rewrite raise_for_loop_limit_spec, HL in E.
-    destruct (N.ltb_spec L (n * eff (cur s))) as [Hlt|Hge]; [discriminate|].
+    destruct (N.ltb_spec L (n * eff s)) as [Hlt|Hge]; [discriminate|].
     right. rewrite product_loops_cons, <- He. exact Hge.
   - (* Exit *)
     destruct stk as [|x stk']; [exact Hb|]. cbn [tl]. apply Hb.
@@ -251,7 +269,7 @@ Proof.
   intros c L ops s n HL Hg E Hlt.
   rewrite <- (eff_is_nest_product c ops s Hg E) in Hlt.
   cbn [step]. rewrite raise_for_loop_limit_spec, HL.
-  destruct (N.ltb_spec L (n * eff (cur s))); [|lia]. repeat split; reflexivity.
+  destruct (N.ltb_spec L (n * eff s)); [|lia]. repeat split; reflexivity.
 Qed.
 
 (** Conversely a loop that keeps the product within the limit is not refused
@@ -260,12 +278,12 @@ Theorem loop_within_limit_passes : forall c L ops s n,
   active (loop_limit c) = Some L -> Forall counted ops ->
   render c init ops = Ok s ->
   n * nest_product ops <= L ->
-  raise_for_loop_limit c (cur s) n = Ok tt.
+  raise_for_loop_limit c (cur s) (cur_loops s) n = Ok tt.
 Proof.
   intros c L ops s n HL Hg E Hle.
   rewrite <- (eff_is_nest_product c ops s Hg E) in Hle.
   rewrite raise_for_loop_limit_spec, HL.
-  destruct (N.ltb_spec L (n * eff (cur s))); [lia|reflexivity].
+  destruct (N.ltb_spec L (n * eff s)); [lia|reflexivity].
 Qed.
 
 (** A step that raises leaves every context as it was (no stale loop-stack or
@@ -278,11 +296,11 @@ Theorem failed_step_keeps_state : forall c s o r s',
   end.
 Proof.
   intros c s o r s'. destruct o; cbn [step].
-  - destruct (raise_for_loop_limit c (cur s) n) as [[]| | |];
+  - destruct (raise_for_loop_limit c (cur s) (cur_loops s) n) as [[]| | |];
       try (intros E _; inversion E; reflexivity).
     destruct (extend_check c (cur s)) as [[]| | |];
       intros E Hr; inversion E; subst; try reflexivity; congruence.
-  - destruct (raise_for_loop_limit c (cur s) n) as [[]| | |];
+  - destruct (raise_for_loop_limit c (cur s) (cur_loops s) n) as [[]| | |];
       intros E Hr; inversion E; subst; try reflexivity; congruence.
   - destruct (extend_check c (cur s)) as [[]| | |];
       intros E Hr; inversion E; subst; try reflexivity; congruence.
@@ -313,7 +331,7 @@ Fixpoint dinv (D : N) (f : frame) (ps : list frame) (o : list bracket) {struct o
   | BExt :: o' => 5 <= scope f /\ dinv D (set_scope f (N.pred (scope f))) ps o'
   | BCopy :: o' =>
       scope f = 4 /\ match ps with p :: ps' => dinv D p ps' o' | [] => False end
-  | BSuper _ _ :: _ => False
+  | BSuper _ _ _ :: _ => False
   end.
 
 Lemma dinv_ext D : forall o f f' ps,
@@ -350,30 +368,30 @@ Proof. destruct o; cbn [dinv]; tauto. Qed.
 
 Lemma good_step c s o s' : good c s -> plain o -> step c s o = (Ok tt, s') -> good c s'.
 Proof.
-  unfold good. destruct s as [f ps op]. cbn [cur parents opened].
+  unfold good. destruct s as [f ps gs op]. cbn [cur parents groups opened].
   intros Hi Hpl. pose proof (dinv_head _ _ _ _ Hi) as (H1 & H2 & H3 & H4).
-  destruct o; cbn [step cur parents opened].
-  - destruct (raise_for_loop_limit c f n) as [[]| | |]; try (intros E; discriminate).
+  destruct o; cbn [step cur parents groups opened].
+  - destruct (raise_for_loop_limit c f _ n) as [[]| | |]; try (intros E; discriminate).
     destruct (extend_check c f) as [[]| | |] eqn:X; try (intros E; discriminate).
     apply extend_check_ok in X.
-    intros E; inversion E; subst. cbn [push cur parents opened dinv].
-    cbn [scope depth set_scope set_loops].
+    intros E; inversion E; subst. cbn [push cur parents groups opened dinv].
+    cbn [scope depth set_scope].
     repeat split; try lia.
     eapply dinv_ext; [| |exact Hi]; simpl; lia.
-  - destruct (raise_for_loop_limit c f n) as [[]| | |]; try (intros E; discriminate).
-    intros E; inversion E; subst. cbn [push cur parents opened dinv].
+  - destruct (raise_for_loop_limit c f _ n) as [[]| | |]; try (intros E; discriminate).
+    intros E; inversion E; subst. cbn [push cur parents groups opened dinv].
     cbn [scope depth set_carry]. repeat split; try lia.
     eapply dinv_ext; [| |exact Hi]; reflexivity.
   - destruct (extend_check c f) as [[]| | |] eqn:X; try (intros E; discriminate).
     apply extend_check_ok in X.
-    intros E; inversion E; subst. cbn [push cur parents opened dinv].
+    intros E; inversion E; subst. cbn [push cur parents groups opened dinv].
     cbn [scope depth set_scope]. repeat split; try lia.
     eapply dinv_ext; [| |exact Hi]; simpl; lia.
   - destruct (copy_check c f) as [[]| | |] eqn:X; try (intros E; discriminate).
     apply copy_check_ok in X.
-    intros E; inversion E; subst. cbn [cur parents opened dinv].
+    intros E; inversion E; subst. cbn [cur parents groups opened dinv].
     cbn [scope depth copy_frame length]. repeat split; try lia. exact Hi.
-  - unfold exit_bracket. cbn [cur parents opened].
+  - unfold exit_bracket. cbn [cur parents groups opened].
     destruct op as [|b op]; [intros E; discriminate|].
     cbn [dinv] in Hi. destruct Hi as (_ & _ & _ & _ & Hi).
     destruct b.
@@ -386,7 +404,7 @@ Proof.
       intros E; inversion E; subst. cbn [cur parents opened]. apply Hi.
     + contradiction.
   - destruct (active (ns_limit c)) as [l|]; [destruct (l <? _)|];
-      intros E; inversion E; subst; cbn [with_cur cur parents opened];
+      intros E; inversion E; subst; cbn [with_cur cur parents groups opened];
       (eapply dinv_ext; [| |exact Hi]; reflexivity).
   - intros E; inversion E; subst. exact Hi.
   - contradiction.
@@ -414,12 +432,12 @@ Proof.
   apply dinv_head in H. tauto.
 Qed.
 
-Theorem copy_increases_depth : forall c s cl s',
-  step c s (EnterCopy cl) = (Ok tt, s') ->
+Theorem copy_increases_depth : forall c s cl bs s',
+  step c s (EnterCopy cl bs) = (Ok tt, s') ->
   depth (cur s') = depth (cur s) + 1 /\ depth (cur s) <= depth_limit c
   /\ parents s' = cur s :: parents s.
 Proof.
-  intros c s cl s'. cbn [step]. destruct (copy_check c (cur s)) as [[]| | |] eqn:X;
+  intros c s cl bs s'. cbn [step]. destruct (copy_check c (cur s)) as [[]| | |] eqn:X;
     try (intros E; discriminate).
   apply copy_check_ok in X. intros E; inversion E; subst. simpl. auto.
 Qed.
@@ -429,12 +447,12 @@ Theorem depth_limit_raises : forall c s,
   (depth_limit c < scope (cur s) ->
      fst (step c s Extend) = LErr ContextDepthError None)
   /\ (depth_limit c < depth (cur s) ->
-     forall cl, fst (step c s (EnterCopy cl)) = LErr ContextDepthError None).
+     forall cl bs, fst (step c s (EnterCopy cl bs)) = LErr ContextDepthError None).
 Proof.
   intros c s. split.
   - intros H. cbn [step]. unfold extend_check.
     destruct (N.ltb_spec (depth_limit c) (scope (cur s))); [reflexivity|lia].
-  - intros H cl. cbn [step]. unfold copy_check.
+  - intros H cl bs. cbn [step]. unfold copy_check.
     destruct (N.ltb_spec (depth_limit c) (depth (cur s))); [reflexivity|lia].
 Qed.
 
@@ -518,13 +536,13 @@ Lemma ninv_step c l s o s' :
   active (ns_limit c) = Some l -> good c s -> plain o ->
   ninv l s -> step c s o = (Ok tt, s') -> ninv l s'.
 Proof.
-  unfold ninv, good. destruct s as [f ps op]. cbn [cur parents opened]. intros HL Hgood Hpl Hi.
-  destruct o; cbn [step cur parents opened].
-  - destruct (raise_for_loop_limit c f n) as [[]| | |]; try (intros E; discriminate).
+  unfold ninv, good. destruct s as [f ps gs op]. cbn [cur parents groups opened]. intros HL Hgood Hpl Hi.
+  destruct o; cbn [step cur parents groups opened].
+  - destruct (raise_for_loop_limit c f _ n) as [[]| | |]; try (intros E; discriminate).
     destruct (extend_check c f) as [[]| | |]; try (intros E; discriminate).
     intros E; inversion E; subst. cbn [push cur parents].
     eapply ns_chain_ext; [| |exact Hi]; reflexivity.
-  - destruct (raise_for_loop_limit c f n) as [[]| | |]; try (intros E; discriminate).
+  - destruct (raise_for_loop_limit c f _ n) as [[]| | |]; try (intros E; discriminate).
     intros E; inversion E; subst. cbn [push cur parents].
     eapply ns_chain_ext; [| |exact Hi]; reflexivity.
   - destruct (extend_check c f) as [[]| | |]; try (intros E; discriminate).
@@ -535,7 +553,7 @@ Proof.
     assert (Ht : total f <= l) by (destruct ps; apply Hi).
     unfold total at 1 2. cbn [locals ns_carry copy_frame sum_sizes].
     unfold size_of_locals. rewrite HL. fold (total f). repeat split; try lia. exact Hi.
-  - unfold exit_bracket. cbn [cur parents opened].
+  - unfold exit_bracket. cbn [cur parents groups opened].
     destruct op as [|b op]; [intros E; discriminate|]. destruct b.
     + intros E; inversion E; subst. cbn [cur parents].
       eapply ns_chain_ext; [| |exact Hi]; reflexivity.
@@ -616,118 +634,137 @@ Qed.
 
 
 
+Definition nosuper (b : bracket) : Prop :=
+  match b with BSuper _ _ _ => False | _ => True end.
+
 Definition rsim (c' : cfg) (s s' : state) : Prop :=
-  erase s = erase s' /\ (active (ns_limit c') <> None -> s = s').
+  erase s = erase s' /\ Forall nosuper (opened s) /\ (active (ns_limit c') <> None -> s = s').
 
 Lemma erase_f_fields f f' : erase_f f = erase_f f' ->
-  depth f = depth f' /\ carry f = carry f' /\ loops f = loops f' /\ scope f = scope f'
+  depth f = depth f' /\ carry f = carry f' /\ shared f = shared f' /\ scope f = scope f'
   /\ locals f = locals f'.
 Proof. destruct f, f'; unfold erase_f; simpl. intros E; inversion E; subst; auto. Qed.
 
-Lemma raise_relaxed c c' f f' n :
-  relaxed c c' -> carry f = carry f' -> loops f = loops f' ->
-  raise_for_loop_limit c f n = Ok tt -> raise_for_loop_limit c' f' n = Ok tt.
+Lemma raise_relaxed c c' f f' lps n :
+  relaxed c c' -> carry f = carry f' ->
+  raise_for_loop_limit c f lps n = Ok tt -> raise_for_loop_limit c' f' lps n = Ok tt.
 Proof.
-  intros (_ & Hl & _) Hc Hlo. rewrite !raise_for_loop_limit_spec.
-  rewrite !eff_eq, <- Hc, <- Hlo.
+  intros (_ & Hl & _) Hc. unfold raise_for_loop_limit. rewrite <- Hc.
   destruct (active (loop_limit c')) as [y|]; [|reflexivity].
   simpl in Hl. destruct (active (loop_limit c)) as [x|]; [|contradiction].
-  destruct (N.ltb_spec x (n * (carry f * product (loops f)))); [discriminate|].
-  intros _. destruct (N.ltb_spec y (n * (carry f * product (loops f)))); [lia|reflexivity].
+  destruct (N.ltb_spec x (loop_product lps (n * carry f))); [discriminate|].
+  intros _. destruct (N.ltb_spec y (loop_product lps (n * carry f))); [lia|reflexivity].
 Qed.
 
-Lemma res_unit_cases (r : res unit) : r = Ok tt \/ r <> Ok tt.
-Proof. destruct r as [[]| | |]; [left; reflexivity|right|right|right]; discriminate. Qed.
+Lemma erase_f_set_scope f f' n : erase_f f = erase_f f' -> erase_f (set_scope f n) = erase_f (set_scope f' n).
+Proof. destruct f, f'; unfold erase_f, set_scope; simpl. intros E; inversion E; subst; reflexivity. Qed.
+
+Lemma erase_f_set_carry f f' n : erase_f f = erase_f f' -> erase_f (set_carry f n) = erase_f (set_carry f' n).
+Proof. destruct f, f'; unfold erase_f, set_carry; simpl. intros E; inversion E; subst; reflexivity. Qed.
+
+Lemma erase_f_set_locals f f' l : erase_f f = erase_f f' -> erase_f (set_locals f l) = erase_f (set_locals f' l).
+Proof. destruct f, f'; unfold erase_f, set_locals; simpl. intros E; inversion E; subst; reflexivity. Qed.
 
 Lemma rsim_step c c' s s' o s1 :
   relaxed c c' -> plain o -> rsim c' s s' -> step c s o = (Ok tt, s1) ->
   exists s1', step c' s' o = (Ok tt, s1') /\ rsim c' s1 s1'.
 Proof.
-  intros Hr Hpl [He Hq] E. pose proof Hr as (Hd & Hl & Hn).
-  destruct s as [f ps op], s' as [f' ps' op'].
-  unfold erase in He. cbn [cur parents opened] in He.
+  intros Hr Hpl (He & Hns & Hq) E. pose proof Hr as (Hd & Hl & Hn).
+  destruct s as [f ps gs op], s' as [f' ps' gs' op'].
+  unfold erase in He. cbn [cur parents groups opened] in He, Hns.
   pose proof (f_equal cur He) as Hf. pose proof (f_equal parents He) as Hps.
-  pose proof (f_equal opened He) as Hop. cbn [cur parents opened] in Hf, Hps, Hop.
-  subst op'. clear He.
+  pose proof (f_equal groups He) as Hgs.
+  pose proof (f_equal opened He) as Hop. cbn [cur parents groups opened] in Hf, Hps, Hgs, Hop.
+  subst op' gs'. clear He.
   pose proof (erase_f_fields _ _ Hf) as (F1 & F2 & F3 & F4 & F5).
-  destruct o; cbn [step cur parents opened] in *.
+  assert (Hsame : forall x y : state, active (ns_limit c') <> None ->
+            {| cur := f; parents := ps; groups := gs; opened := op |}
+            = {| cur := f'; parents := ps'; groups := gs; opened := op |} -> f = f' /\ ps = ps').
+  { intros _ _ _ Hx. inversion Hx; auto. }
+  destruct o; cbn [step cur parents groups opened] in *; unfold cur_loops in *;
+    cbn [cur parents groups opened] in *.
   - (* EnterFor *)
-    destruct (raise_for_loop_limit c f n) as [[]| | |] eqn:R; try discriminate.
-    rewrite (raise_relaxed c c' f f' n Hr F2 F3 R).
+    destruct (raise_for_loop_limit c f _ n) as [[]| | |] eqn:R; try discriminate.
+    rewrite (raise_relaxed c c' f f' _ n Hr F2 R).
     unfold extend_check in *. rewrite <- F4.
     destruct (N.ltb_spec (depth_limit c) (scope f)); [discriminate|].
     destruct (N.ltb_spec (depth_limit c') (scope f)); [lia|].
     inversion E; subst. eexists; split; [reflexivity|].
-    split.
-    + unfold erase, push. cbn [cur parents opened]. f_equal; [|exact Hps].
-      destruct f, f'; unfold erase_f, set_scope, set_loops in *; simpl in *. congruence.
+    split; [|split].
+    + unfold erase. cbn [cur parents groups opened]. rewrite Hps, F4.
+      rewrite (erase_f_set_scope f f' _ Hf). reflexivity.
+    + constructor; [exact I|exact Hns].
     + intros Ha. specialize (Hq Ha). inversion Hq; subst. reflexivity.
   - (* EnterCarry *)
-    destruct (raise_for_loop_limit c f n) as [[]| | |] eqn:R; try discriminate.
-    rewrite (raise_relaxed c c' f f' n Hr F2 F3 R).
+    destruct (raise_for_loop_limit c f _ n) as [[]| | |] eqn:R; try discriminate.
+    rewrite (raise_relaxed c c' f f' _ n Hr F2 R).
     inversion E; subst. eexists; split; [reflexivity|].
-    split.
-    + unfold erase, push. cbn [cur parents opened]. rewrite F2. f_equal; [|exact Hps].
-      destruct f, f'; unfold erase_f, set_carry in *; simpl in *. congruence.
+    split; [|split].
+    + unfold erase, push. cbn [cur parents groups opened]. rewrite F2, Hps.
+      rewrite (erase_f_set_carry f f' _ Hf). reflexivity.
+    + constructor; [exact I|exact Hns].
     + intros Ha. specialize (Hq Ha). inversion Hq; subst. reflexivity.
   - (* Extend *)
     unfold extend_check in *. rewrite <- F4.
     destruct (N.ltb_spec (depth_limit c) (scope f)); [discriminate|].
     destruct (N.ltb_spec (depth_limit c') (scope f)); [lia|].
     inversion E; subst. eexists; split; [reflexivity|].
-    split.
-    + unfold erase, push. cbn [cur parents opened]. f_equal; [|exact Hps].
-      destruct f, f'; unfold erase_f, set_scope in *; simpl in *. congruence.
+    split; [|split].
+    + unfold erase, push. cbn [cur parents groups opened]. rewrite Hps, F4.
+      rewrite (erase_f_set_scope f f' _ Hf). reflexivity.
+    + constructor; [exact I|exact Hns].
     + intros Ha. specialize (Hq Ha). inversion Hq; subst. reflexivity.
   - (* EnterCopy *)
     unfold copy_check in *. rewrite <- F1.
     destruct (N.ltb_spec (depth_limit c) (depth f)); [discriminate|].
     destruct (N.ltb_spec (depth_limit c') (depth f)); [lia|].
     inversion E; subst. eexists; split; [reflexivity|].
-    split.
-    + unfold erase. cbn [cur parents opened map]. f_equal; [|rewrite Hf, Hps; reflexivity].
-      unfold copy_frame, erase_f, loop_product. cbn [depth carry loops scope locals].
-      rewrite F1, F2, F3. reflexivity.
+    split; [|split].
+    + unfold erase. cbn [cur parents groups opened map]. rewrite Hf, Hps. f_equal.
+      unfold copy_frame, erase_f. cbn [depth carry shared scope locals].
+      rewrite F1, F2. reflexivity.
+    + constructor; [exact I|exact Hns].
     + intros Ha. specialize (Hq Ha). inversion Hq; subst.
       f_equal. unfold copy_frame. f_equal. unfold size_of_locals.
       destruct (active (ns_limit c')) as [y|]; [|congruence].
       simpl in Hn. destruct (active (ns_limit c)); [reflexivity|contradiction].
   - (* Exit *)
-    unfold exit_bracket in *. cbn [cur parents opened] in *.
-    destruct op as [|b op]; [discriminate|]. destruct b.
-    + inversion E; subst. eexists; split; [reflexivity|]. split.
-      * unfold erase. cbn [cur parents opened]. f_equal; [|exact Hps].
-        destruct f, f'; unfold erase_f, set_scope, set_loops in *; simpl in *. congruence.
+    unfold exit_bracket, cur_loops in *. cbn [cur parents groups opened] in *.
+    destruct op as [|b op]; [discriminate|]. inversion Hns as [|? ? Hb Hns']; subst.
+    destruct b; try contradiction.
+    + inversion E; subst. eexists; split; [reflexivity|]. split; [|split].
+      * unfold erase. cbn [cur parents groups opened]. rewrite Hps, F4.
+        rewrite (erase_f_set_scope f f' _ Hf). reflexivity.
+      * exact Hns'.
       * intros Ha. specialize (Hq Ha). inversion Hq; subst. reflexivity.
-    + inversion E; subst. eexists; split; [reflexivity|]. split.
-      * unfold erase. cbn [cur parents opened]. f_equal; [|exact Hps].
-        destruct f, f'; unfold erase_f, set_carry in *; simpl in *. congruence.
+    + inversion E; subst. eexists; split; [reflexivity|]. split; [|split].
+      * unfold erase. cbn [cur parents groups opened]. rewrite Hps.
+        rewrite (erase_f_set_carry f f' _ Hf). reflexivity.
+      * exact Hns'.
       * intros Ha. specialize (Hq Ha). inversion Hq; subst. reflexivity.
-    + inversion E; subst. eexists; split; [reflexivity|]. split.
-      * unfold erase. cbn [cur parents opened]. f_equal; [|exact Hps].
-        destruct f, f'; unfold erase_f, set_scope in *; simpl in *. congruence.
+    + inversion E; subst. eexists; split; [reflexivity|]. split; [|split].
+      * unfold erase. cbn [cur parents groups opened]. rewrite Hps, F4.
+        rewrite (erase_f_set_scope f f' _ Hf). reflexivity.
+      * exact Hns'.
       * intros Ha. specialize (Hq Ha). inversion Hq; subst. reflexivity.
     + destruct ps as [|p ps0]; [discriminate|]. destruct ps' as [|p' ps0']; [discriminate|].
-      cbn [map] in Hps. pose proof (f_equal (hd p) Hps) as Hp. pose proof (f_equal (@tl _) Hps) as Hps0.
-      cbn [hd tl] in Hp, Hps0.
-      inversion E; subst. eexists; split; [reflexivity|]. split.
-      * unfold erase. cbn [cur parents opened]. rewrite Hp, Hps0. reflexivity.
-      * intros Ha. specialize (Hq Ha). inversion Hq; subst. reflexivity.
-    + inversion E; subst. eexists; split; [reflexivity|]. split.
-      * unfold erase. cbn [cur parents opened]. f_equal.
-        rewrite !map_app. cbn [map]. f_equal. f_equal; [|exact Hps].
-        destruct f, f'; unfold erase_f, set_scope in *; simpl in *. congruence.
+      cbn [map] in Hps. pose proof (f_equal (hd (erase_f p)) Hps) as Hp.
+      pose proof (f_equal (@tl _) Hps) as Hps0. cbn [hd tl] in Hp, Hps0.
+      inversion E; subst. eexists; split; [reflexivity|]. split; [|split].
+      * unfold erase. cbn [cur parents groups opened]. rewrite Hp, Hps0, F3. reflexivity.
+      * exact Hns'.
       * intros Ha. specialize (Hq Ha). inversion Hq; subst. reflexivity.
   - (* Assign *)
-    assert (Eq : erase (with_cur {| cur := f; parents := ps; opened := op |}
+    assert (Eq : erase (with_cur {| cur := f; parents := ps; groups := gs; opened := op |}
                           (set_locals f (dict_set k sz (locals f))))
-                 = erase (with_cur {| cur := f'; parents := ps'; opened := op |}
+                 = erase (with_cur {| cur := f'; parents := ps'; groups := gs; opened := op |}
                             (set_locals f' (dict_set k sz (locals f'))))).
-    { unfold erase, with_cur. cbn [cur parents opened]. f_equal; [|exact Hps].
-      destruct f, f'; unfold erase_f, set_locals in *; simpl in *. congruence. }
+    { unfold erase, with_cur. cbn [cur parents groups opened]. rewrite Hps, F5.
+      rewrite (erase_f_set_locals f f' _ Hf). reflexivity. }
     destruct (active (ns_limit c')) as [y|] eqn:A'.
-    + assert (Hq' : {| cur := f; parents := ps; opened := op |}
-                    = {| cur := f'; parents := ps'; opened := op |}) by (apply Hq; congruence).
+    + assert (Hq' : {| cur := f; parents := ps; groups := gs; opened := op |}
+                    = {| cur := f'; parents := ps'; groups := gs; opened := op |})
+        by (apply Hq; congruence).
       inversion Hq'; subst f' ps'.
       simpl in Hn. destruct (active (ns_limit c)) as [x|] eqn:A; [|contradiction].
       unfold size_of_locals in *. rewrite A in E. rewrite A'.
@@ -736,16 +773,18 @@ Proof.
         [discriminate|].
       destruct (N.ltb_spec y (sum_sizes (locals (set_locals f (dict_set k sz (locals f))))
                               + ns_carry (set_locals f (dict_set k sz (locals f))))); [lia|].
-      inversion E; subst. eexists; split; [reflexivity|]. split; [reflexivity|auto].
-    + assert (s1 = with_cur {| cur := f; parents := ps; opened := op |}
+      inversion E; subst. eexists; split; [reflexivity|].
+      split; [reflexivity|]. split; [exact Hns|auto].
+    + assert (s1 = with_cur {| cur := f; parents := ps; groups := gs; opened := op |}
                      (set_locals f (dict_set k sz (locals f)))) as ->.
       { destruct (active (ns_limit c)); [destruct (_ <? _)|]; inversion E; reflexivity. }
-      eexists; split; [reflexivity|]. split; [exact Eq|congruence].
+      eexists; split; [reflexivity|]. split; [exact Eq|]. split; [exact Hns|congruence].
   - (* CheckLoop *)
-    destruct (raise_for_loop_limit c f n) as [[]| | |] eqn:R; try discriminate.
-    rewrite (raise_relaxed c c' f f' n Hr F2 F3 R).
+    destruct (raise_for_loop_limit c f _ n) as [[]| | |] eqn:R; try discriminate.
+    rewrite (raise_relaxed c c' f f' _ n Hr F2 R).
     inversion E; subst. eexists; split; [reflexivity|].
-    split; [unfold erase; cbn [cur parents opened]; rewrite Hf, Hps; reflexivity|exact Hq].
+    split; [unfold erase; cbn [cur parents groups opened]; rewrite Hf, Hps; reflexivity|].
+    split; [exact Hns|exact Hq].
   - contradiction.
 Qed.
 
@@ -769,7 +808,7 @@ Theorem unexceeded_limits_invisible : forall c c' ops s,
   exists s', render c' init ops = Ok s' /\ erase s' = erase s.
 Proof.
   intros c c' ops s Hr Hp E.
-  assert (H0 : rsim c' init init) by (split; auto).
+  assert (H0 : rsim c' init init) by (split; [reflexivity|split; [constructor|auto]]).
   destruct (rsim_render c c' Hr ops _ _ _ Hp H0 E) as (s' & E' & [He _]).
   exists s'. split; [exact E'|symmetry; exact He].
 Qed.
@@ -828,8 +867,8 @@ Proof.
     inversion E; subst; reflexivity.
 Qed.
 
-Lemma raise_fine c f n : raise_for_loop_limit c f n = Ok tt
-  \/ raise_for_loop_limit c f n = LErr LoopIterationLimitError None.
+Lemma raise_fine c f lps n : raise_for_loop_limit c f lps n = Ok tt
+  \/ raise_for_loop_limit c f lps n = LErr LoopIterationLimitError None.
 Proof.
   unfold raise_for_loop_limit. destruct (active (loop_limit c)); [destruct (_ <? _)|]; auto.
 Qed.
@@ -839,13 +878,13 @@ Lemma ostep_enter_fine c s o :
   o <> Exit -> plain o -> fine (ostep c s o).
 Proof.
   intros Hne Hpl. unfold ostep. destruct o; cbn [step]; try congruence; try contradiction.
-  - destruct (raise_fine c (cur s) n) as [-> | ->]; [|exact I].
+  - destruct (raise_fine c (cur s) (cur_loops s) n) as [-> | ->]; [|exact I].
     unfold extend_check. destruct (_ <? _); exact I.
-  - destruct (raise_fine c (cur s) n) as [-> | ->]; exact I.
+  - destruct (raise_fine c (cur s) (cur_loops s) n) as [-> | ->]; exact I.
   - unfold extend_check. destruct (_ <? _); exact I.
   - unfold copy_check. destruct (_ <? _); exact I.
   - destruct (active (ns_limit c)); [destruct (_ <? _)|]; exact I.
-  - destruct (raise_fine c (cur s) n) as [-> | ->]; exact I.
+  - destruct (raise_fine c (cur s) (cur_loops s) n) as [-> | ->]; exact I.
 Qed.
 
 Lemma step_opened c s o s' :
@@ -854,17 +893,17 @@ Lemma step_opened c s o s' :
   | EnterFor _ => opened s' = BFor :: opened s
   | EnterCarry _ => opened s' = BCarry (carry (cur s)) :: opened s
   | Extend => opened s' = BExt :: opened s
-  | EnterCopy _ => opened s' = BCopy :: opened s
+  | EnterCopy _ _ => opened s' = BCopy :: opened s
   | Exit => exists b, opened s = b :: opened s'
-  | EnterSuper _ => exists ch bt, opened s' = BSuper ch bt :: opened s
+  | EnterSuper _ => exists ch bt ls, opened s' = BSuper ch bt ls :: opened s
   | _ => opened s' = opened s
   end.
 Proof.
   destruct o; cbn [step].
-  - destruct (raise_for_loop_limit c (cur s) n) as [[]| | |]; try discriminate.
+  - destruct (raise_for_loop_limit c (cur s) (cur_loops s) n) as [[]| | |]; try discriminate.
     destruct (extend_check c (cur s)) as [[]| | |]; try discriminate.
     intros E; inversion E; reflexivity.
-  - destruct (raise_for_loop_limit c (cur s) n) as [[]| | |]; try discriminate.
+  - destruct (raise_for_loop_limit c (cur s) (cur_loops s) n) as [[]| | |]; try discriminate.
     intros E; inversion E; reflexivity.
   - destruct (extend_check c (cur s)) as [[]| | |]; try discriminate.
     intros E; inversion E; reflexivity.
@@ -874,10 +913,10 @@ Proof.
     destruct b; try (intros E; inversion E; subst; eexists; reflexivity).
     destruct (parents s); [discriminate|]. intros E; inversion E; subst; eexists; reflexivity.
   - destruct (active (ns_limit c)); [destruct (_ <? _)|]; intros E; inversion E; reflexivity.
-  - destruct (raise_for_loop_limit c (cur s) n) as [[]| | |]; intros E; inversion E; reflexivity.
+  - destruct (raise_for_loop_limit c (cur s) (cur_loops s) n) as [[]| | |]; intros E; inversion E; reflexivity.
   - destruct (nth_error (parents s) k); [|discriminate].
     destruct (extend_check c f) as [[]| | |]; try discriminate.
-    intros E; inversion E; subst. eexists; eexists; reflexivity.
+    intros E; inversion E; subst. eexists; eexists; eexists; reflexivity.
 Qed.
 
 (** In a good state with something open, Exit succeeds. *)
@@ -915,7 +954,7 @@ Definition around (c : cfg) (o : op) (body : state -> res state) (s : state) : r
   do s1 <- ostep c s o;; do s2 <- body s1;; ostep c s2 Exit.
 
 Definition is_enter (o : op) : Prop :=
-  match o with EnterFor _ | EnterCarry _ | Extend | EnterCopy _ => True | _ => False end.
+  match o with EnterFor _ | EnterCarry _ | Extend | EnterCopy _ _ => True | _ => False end.
 
 Lemma bracket2_flat c o1 o2 body s :
   (do s1 <- ostep c s o1;; do s2 <- ostep c s1 o2;; do s3 <- body s2;;
@@ -1031,7 +1070,7 @@ Section GoBal.
     - intros s s' Hg. cbn [go]. rewrite bracket2_flat. revert s s' Hg.
       apply pres_bracket; [exact I|]. apply pres_bracket; [exact I|].
       apply pres_repeat. apply Hp.
-    - apply (pres_bracket c (EnterCopy true)); [exact I|apply Hp].
+    - apply (pres_bracket c (EnterCopy true false)); [exact I|apply Hp].
     - intros s s' Hg. cbn [go]. rewrite bracket2_flat. revert s s' Hg.
       apply pres_bracket; [exact I|]. apply pres_bracket; [exact I|].
       apply pres_repeat. apply Hp.
@@ -1151,7 +1190,7 @@ Section GoFine.
       + apply (finep_bracket c C C); [exact I|apply enter_C; exact I| |].
         * apply pres_repeat. apply Hp.
         * apply finep_repeat; [apply Hp|apply Hpf].
-    - apply (finep_bracket c C C (EnterCopy true)); [exact I|apply enter_C; exact I|apply Hp|apply Hpf].
+    - apply (finep_bracket c C C (EnterCopy true false)); [exact I|apply enter_C; exact I|apply Hp|apply Hpf].
     - intros s Hg Hc. cbn [go]. rewrite bracket2_flat. revert s Hg Hc.
       apply (finep_bracket c C C); [exact I|apply enter_C; exact I| |].
       + apply pres_bracket; [exact I|]. apply pres_repeat. apply Hp.
@@ -1184,7 +1223,7 @@ Definition macro_of (fuel : nat) (c : cfg) (env : tenv) (p : nat) (s : state) : 
   | O => OutOfFuel
   | S fuel' =>
       do b <- lookup env p;;
-      do s1 <- ostep c s (EnterCopy true);;
+      do s1 <- ostep c s (EnterCopy true false);;
       do s2 <- exec fuel' c env b s1;;
       ostep c s2 Exit
   end.
@@ -1202,7 +1241,7 @@ Proof.
   - intros p s s' Hg. cbn [partial_of]. destruct (lookup env p) as [b| | |]; cbn [bind]; try discriminate.
     apply (pres_bracket c Extend (exec fuel c env b)); [exact I|apply IH|exact Hg].
   - intros p s s' Hg. cbn [macro_of]. destruct (lookup env p) as [b| | |]; cbn [bind]; try discriminate.
-    apply (pres_bracket c (EnterCopy true) (exec fuel c env b)); [exact I|apply IH|exact Hg].
+    apply (pres_bracket c (EnterCopy true false) (exec fuel c env b)); [exact I|apply IH|exact Hg].
 Qed.
 
 Definition enough (c : cfg) (fuel : nat) (l : list bracket) : Prop :=
@@ -1225,7 +1264,7 @@ Lemma macro_of_pres c env fuel p : pres c (macro_of fuel c env p).
 Proof.
   destruct fuel as [|fuel]; intros s s' Hg; cbn [macro_of]; [discriminate|].
   destruct (lookup env p) as [b| | |]; cbn [bind]; try discriminate.
-  apply (pres_bracket c (EnterCopy true) (exec fuel c env b)); [exact I|apply exec_pres|exact Hg].
+  apply (pres_bracket c (EnterCopy true false) (exec fuel c env b)); [exact I|apply exec_pres|exact Hg].
 Qed.
 
 Lemma exec_fine c env : forall fuel l, finep c (enough c fuel) (exec fuel c env l).
@@ -1246,7 +1285,7 @@ Proof.
     + intros p s Hg Hc. cbn [macro_of].
       destruct (lookup_cases env p) as [[b ->] | ->]; cbn [bind]; [|exact I].
       revert s Hg Hc.
-      apply (finep_bracket c (enough c (S fuel)) (enough c fuel) (EnterCopy true));
+      apply (finep_bracket c (enough c (S fuel)) (enough c fuel) (EnterCopy true false));
         [exact I| |apply exec_pres|apply IH].
       intros s s1 E Hc. apply step_opened in E. rewrite E. unfold enough in *. simpl. lia.
 Qed.
@@ -1329,13 +1368,15 @@ Qed.
     [{{ block.super }}] in the overriding block nor of its local variables. *)
 
 (** The full statement of [loop_nest_bounded] is false:
-    block { for (5) { block.super { for (5) ... runs 25 iterations under limit 10. *)
+    block { include-for / tablerow (5) { block.super { for (5) ... runs 25
+    iterations under limit 10: the loop around block.super is counted in the
+    carry of the block's context, which the outer context does not have. *)
 Theorem loop_nest_bounded_refuted : exists c L ops s,
-  active (loop_limit c) = Some L /\ Forall (fun o => o <> EnterCopy false) ops /\
+  active (loop_limit c) = Some L /\ Forall (fun o => o <> EnterCopy false false) ops /\
   render c init ops = Ok s /\ L < nest_product ops.
 Proof.
   exists {| depth_limit := 30; loop_limit := Some 10; ns_limit := None |}, 10,
-    [Extend; EnterCopy true; EnterFor 5; EnterSuper 0; EnterFor 5].
+    [Extend; EnterCopy true true; EnterCarry 5; EnterSuper 0; EnterFor 5].
   eexists. split; [reflexivity|]. split; [repeat constructor; discriminate|].
   split; [vm_compute; reflexivity|]. vm_compute. reflexivity.
 Qed.
@@ -1347,9 +1388,18 @@ Theorem locals_le_limit_refuted : exists c l ops s,
   active (ns_limit c) = Some l /\ render c init ops = Ok s /\ l < all_locals_size s.
 Proof.
   exists {| depth_limit := 30; loop_limit := None; ns_limit := Some 100 |}, 100,
-    [Assign [120] 50; EnterCopy true; Assign [121] 50; EnterSuper 0; Assign [122] 40; Exit].
+    [Assign [120] 50; EnterCopy true true; Assign [121] 50; EnterSuper 0; Assign [122] 40; Exit].
   eexists. split; [reflexivity|]. split; [vm_compute; reflexivity|]. vm_compute. reflexivity.
 Qed.
+
+(** A [for] loop around block.super IS counted since the block-scoped copy
+    continues the loop list of the outer context (e5160a7): block { for (5) {
+    block.super { for (5) is refused under limit 10. *)
+Theorem super_inside_for_is_counted :
+  render {| depth_limit := 30; loop_limit := Some 10; ns_limit := None |} init
+    [Extend; EnterCopy true true; EnterFor 5; EnterSuper 0; EnterFor 5]
+  = LErr LoopIterationLimitError None.
+Proof. reflexivity. Qed.
 
 (** The depth test is applied to the context block.super extends. *)
 Theorem super_depth_limit_raises : forall c s k t,
@@ -1371,10 +1421,11 @@ Proof.
   intros E; inversion E; subst. clear E.
   split; [apply nth_error_Some; congruence|].
   eexists. split; [reflexivity|].
-  unfold exit_bracket. cbn [cur parents opened].
-  destruct s as [f ps op]. cbn [cur parents opened] in *. f_equal.
+  unfold exit_bracket. cbn [cur parents groups opened].
+  destruct s as [f ps gs op]. cbn [cur parents groups opened] in *.
   assert (set_scope (set_scope t (scope t + 1)) (N.pred (scope (set_scope t (scope t + 1)))) = t) as ->
     by apply set_scope_undo.
+  rewrite firstn_skipn. f_equal. f_equal.
   clear -Hn. revert k Hn. induction ps as [|p ps IH]; intros [|k]; simpl; try discriminate.
   - intros E; inversion E; reflexivity.
   - intros E. f_equal. apply IH. exact E.
@@ -1386,18 +1437,18 @@ Definition cfg_ex : cfg := {| depth_limit := 6; loop_limit := Some 10; ns_limit 
 
 (** for (2) { render { for (5) { assign } } } is fine under limit 10 ... *)
 Example nest_ok_example :
-  let ops := [Extend; EnterFor 2; EnterCopy true; Extend; EnterFor 5; Assign [120] 28] in
+  let ops := [Extend; EnterFor 2; EnterCopy true false; Extend; EnterFor 5; Assign [120] 28] in
   exists s, render cfg_ex init ops = Ok s /\ nest_product ops = 10
-            /\ eff (cur s) = 10 /\ all_locals_size s = 28 /\ depth_open (opened s) = 5%nat.
+            /\ eff s = 10 /\ all_locals_size s = 28 /\ depth_open (opened s) = 5%nat.
 Proof. eexists. vm_compute. repeat split; reflexivity. Qed.
 
 (** ... render-for (3) { for (4) } is refused (12 > 10) at the inner loop,
     although neither 3 nor 4 exceeds the limit (defect 22, fixed) ... *)
 Example nest_refused_example :
-  render cfg_ex init [Extend; EnterCopy true; EnterCarry 3; Extend; EnterFor 4]
+  render cfg_ex init [Extend; EnterCopy true false; EnterCarry 3; Extend; EnterFor 4]
   = LErr LoopIterationLimitError None
-  /\ exists s, render cfg_ex init [Extend; EnterCopy true; EnterCarry 3; Extend] = Ok s
-               /\ nest_product [Extend; EnterCopy true; EnterCarry 3; Extend] = 3.
+  /\ exists s, render cfg_ex init [Extend; EnterCopy true false; EnterCarry 3; Extend] = Ok s
+               /\ nest_product [Extend; EnterCopy true false; EnterCarry 3; Extend] = 3.
 Proof. split; [reflexivity|]. eexists. vm_compute. split; reflexivity. Qed.
 
 (** ... a self-including template stops with ContextDepthError, a
@@ -1422,9 +1473,9 @@ Proof. eexists. vm_compute. repeat split; reflexivity. Qed.
 
 (** ... the namespace limit counts the locals of the copying context ... *)
 Example ns_example :
-  render cfg_ex init [Assign [120] 60; EnterCopy true; Assign [121] 41]
+  render cfg_ex init [Assign [120] 60; EnterCopy true false; Assign [121] 41]
   = LErr LocalNamespaceLimitError None
-  /\ exists s, render cfg_ex init [Assign [120] 60; EnterCopy true; Assign [121] 40] = Ok s
+  /\ exists s, render cfg_ex init [Assign [120] 60; EnterCopy true false; Assign [121] 40] = Ok s
                /\ all_locals_size s = 100.
 Proof. split; [reflexivity|]. eexists. vm_compute. split; reflexivity. Qed.
 
@@ -1438,3 +1489,12 @@ Proof. vm_compute. repeat split; reflexivity. Qed.
 
 Example relaxed_example : relaxed cfg_ex (unlimited 30) /\ relaxed cfg_ex cfg_ex.
 Proof. unfold relaxed, cfg_ex, unlimited; simpl. repeat split; lia. Qed.
+
+(** A block inside a loop of the base template, overridden by a block with a
+    loop: the block's context continues the loop list, the nest is counted once. *)
+Example block_scope_copy_example :
+  (exists s, render cfg_ex init [Extend; EnterFor 3; EnterCopy true true; EnterFor 3] = Ok s
+             /\ eff s = 9 /\ cur_loops s = [3; 3] /\ carry (cur s) = 1)
+  /\ render cfg_ex init [Extend; EnterFor 3; EnterCopy true true; EnterFor 4]
+     = LErr LoopIterationLimitError None.
+Proof. split; [eexists; vm_compute; repeat split; reflexivity|reflexivity]. Qed.
